@@ -184,6 +184,20 @@ pub fn run(ctx: &mut Ctx) {
             }
         }
     }
+    // values with binary / decimal structure, one position at a time (all ten types; a value a
+    // type cannot hold is skipped by the per-type helpers)
+    ctx.stratum("B2-structured-values-each-position", true);
+    for &x in crate::gen::structured_numbers().iter().filter(|x| **x <= crate::mv::MAX_SAFE) {
+        if !ctx.take() {
+            continue;
+        }
+        ctx.class(&format!("structured/max<2^{}", 64 - x.leading_zeros()));
+        all_types3(ctx, x, 2, 3);
+        all_types3(ctx, 1, x, 3);
+        all_types3(ctx, 1, 2, x);
+        all_types4(ctx, 1, 2, 3, x);
+        all_types4(ctx, x, 0, x, x);
+    }
     ctx.stratum("R-random-values-wide-types", false);
     let nr = ctx.tier.n(20_000, 2_000_000);
     for i in 0..nr {
